@@ -29,7 +29,14 @@ CASES = {
                       {r'^(k|pos)$': (0, 3), r'^stop$': (0, 4), r'^(style|s[0-3])$': (0, 4)}),
     'c14_aggregator': ('c14_aggregator.cpp', r'^drive_(aggr|aggr_arg)$', r'^g_frame_kind$',
                        {r'^n$': (0, 3), r'drive_aggr_arg:^n$': (0, 2), r'^style$': (0, 1), r'^stop$': (-1, 5), r'^kind[0-2]$': (0, 1), r'^k[0-2]$': (0, 2), r'^(pre|steps)$': (0, 4)}),
+    'c18_drive': ('c18_drive.cpp', r'^c18_drive(_mp|_discard|_cfa|_conv|_cbthrow|_cbctor|_discard_fail|_mo)?$', r'^g_frame_kind$|^g_st_block$|^g_st_freed$|_size$',
+                  {r'^outcome$': (0, 2), r'^(before|counting|take|throws|conv_throws)$': (0, 1)}),
+    'c15_drive': ('c15_drive.cpp', r'^c15_drive(_disconnected|_incoro|_void)?$', r'^g_frame_kind$',
+                  {r'^nlist$': (1, 3), r'^(second_by_ref|late|by_ref)$': (0, 1)}),
 }
+# per case: C++ text added to the harness (hooks the driver only declares) and input globals set to the same pseudo-random value on both sides
+HOOKS = {'c18_drive': 'extern "C" void c18_probe(int) {}\nextern "C" void cvx_c18_probe(int) {}\n'}
+INPUTS = {'c15_drive': {'g_cb_limit': (0, 4)}}
 
 def sh(cmd, **kw):
     r = subprocess.run(cmd, capture_output=True, text=True, **kw)
@@ -76,11 +83,12 @@ def run_case(name, rounds, keep):
         libc = {'_GLOBAL_OFFSET_TABLE_', 'malloc', 'free', 'memcpy', 'memmove', 'memset', 'abort', 'fprintf', 'fwrite', 'stderr', 'memcmp', 'strlen'}
         sh_c = ['#include <stdio.h>\n#include <stdlib.h>\n#include <string.h>\n#include <unistd.h>\n#include <sched.h>\n#include <errno.h>\n#include <sys/syscall.h>\n']
         for s in undefined:
-            if s in libc: continue
+            if s in libc or (s + '(') in HOOKS.get(name, ''): continue
             if s.startswith('G_'): sh_c.append('char %s[512];   /* external libstdc++ object, used as an identity only */' % s)
             elif 'throw' in s: sh_c.append('void %s(void) { fprintf(stderr, "T: libstdc++ throw helper %s reached\\n"); abort(); }' % (s, s))
             elif re.match(r'^_ZNSt\d+\w*(C[12]E|D[012]Ev)', s): sh_c.append('void %s(void) {}   /* ctor / dtor of a libstdc++ exception class: exception objects are opaque in the translated world */' % s)
             elif s in ('cvx_pthread_mutex_lock', 'cvx_pthread_mutex_unlock', 'cvx_pthread_mutex_trylock'): sh_c.append('#include <pthread.h>\nint %s(void *m) { return %s((pthread_mutex_t *)m); }' % (s, s[4:]))
+            elif s == 'cvx_strcmp': sh_c.append('int cvx_strcmp(const char *a, const char *b) { return strcmp(a, b); }')
             elif s == 'cvx_memcmp': sh_c.append('int cvx_memcmp(const void *a, const void *b, unsigned long n) { return memcmp(a, b, n); }')
             elif s == 'cvx_sched_yield': sh_c.append('int cvx_sched_yield(void) { return sched_yield(); }')
             elif s == 'cvx___errno_location': sh_c.append('int *cvx___errno_location(void) { return &errno; }')
@@ -91,7 +99,7 @@ def run_case(name, rounds, keep):
         open(os.path.join(wd, 'shim.c'), 'w').write('\n'.join(sh_c) + '\n')
         rc, out = sh(['gcc', '-O1', '-w', '-c', 'shim.c', '-o', 'shim.o'], cwd=wd)
         if rc: return 2, 'gcc shim.c: ' + out[-1500:]
-        obs = sorted((s[2:], n) for s, n in defined.items() if s.startswith('G_g_') and n > 0 and not re.search(skip_rx, s))   # ir2c names module globals G_<name>
+        obs = sorted((s[2:], n) for s, n in defined.items() if s.startswith('G_g_') and n > 0 and not re.search(skip_rx, s[2:]))   # ir2c names module globals G_<name>
         h = ['#include "%s"' % os.path.join(VERIF, 'drivers', driver), '#include <cstdio>', '#include <cstring>', '#include <cstdlib>', 'extern "C" {']
         sigs = {}
         for sc in scen:
@@ -108,6 +116,7 @@ def run_case(name, rounds, keep):
         for s_, n in obs:
             h.append('  if (memcmp((const void*)&%s, T_G_%s, %d)) { printf("DIFF scenario=%%s global=%s args=", sc); for (int i = 0; i < nx; i++) printf("%%d ", x[i]); printf("\\n"); bad = 1; }' % (s_, s_, n, s_))
         h.append('  return !bad; }')
+        if name in HOOKS: h.insert(1, HOOKS[name])
         h.append('static unsigned seed = 1; static unsigned rnd() { seed = seed * 1664525u + 1013904223u; return seed >> 4; }')
         h.append('static int val(long r, int i) { static const int edge[] = {0, 1, -1, 2, 7, 2147483647, -2147483647 - 1, 2147483646, 42}; if (r < 9) return edge[(r + i) % 9]; unsigned q = rnd(); return (q & 3) == 0 ? edge[(q >> 2) % 9] : (int)(rnd() * 2654435761u); }')
         h.append('static int shp(int lo, int hi) { return lo + (int)(rnd() % (unsigned)(hi - lo + 1)); }')
@@ -122,6 +131,8 @@ def run_case(name, rounds, keep):
             nx = max(len(ps), 1)
             args = ', '.join('x[%d]' % i for i in range(len(ps)))
             h.append('    { int x[%d] = {%s}; reset();' % (nx, ', '.join(gens) or '0'))
+            for gn, (lo, hi) in INPUTS.get(name, {}).items():
+                h.append('      { int iv = shp(%d, %d); memcpy((void*)&%s, &iv, sizeof iv); memcpy(T_G_%s, &iv, sizeof iv); }' % (lo, hi, gn, gn))
             if rt == 'int':
                 h.append('      int a = %s(%s); int b = T_%s(%s); runs++; if (a != b) { printf("DIFF scenario=%s return real=%%d translated=%%d\\n", a, b); bad++; }' % (sc, args, sc, args, sc))
             else:
